@@ -124,6 +124,17 @@ def body(S, t, part):
     other = m.lights["l_rgb2"]
     rec_other = _install_backend(S, t, other, part["backend"]) if part["backend"] == "batch" else None
     model = {}        # key -> (priority, colour)
+    pin = part.get("pin", {})
+
+    def choice(name, n):
+        return pin[name] if name in pin else S.choice(name, n)
+
+    def boolean(name):
+        return pin[name] if name in pin else S.bool(name)
+
+    def fade_ms(name):
+        # a concrete duration keeps the interpolation linear in the remaining symbolic instants (much cheaper paths)
+        return pin[name] if name in pin else S.real(name, 1, 2000)
     n_eff = 0
     ops = part["ops"]
     for i, op in enumerate(ops):
@@ -131,8 +142,8 @@ def body(S, t, part):
         if op == "color":
             col = PALETTE[(i + part.get("rot", 0)) % len(PALETTE)] if "rot" in part else PALETTE[S.choice("colour%d" % i, len(PALETTE))]
             prio = S.int("priority%d" % i, -3, 20)
-            key = KEYS[S.choice("key%d" % i, len(KEYS))]
-            fade = S.real("fade_ms%d" % i, 1, 2000) if S.bool("fades%d" % i) else 0
+            key = KEYS[choice("key%d" % i, len(KEYS))]
+            fade = fade_ms("fade_ms%d" % i) if boolean("fades%d" % i) else 0
             for k2, (p2, _) in model.items():
                 if k2 != key:
                     S.assume(p2 != prio)
@@ -145,8 +156,8 @@ def body(S, t, part):
                 # a second light is updated in the same batch round: its send overlaps with later commands to the first
                 other.color([10, 20, 30], fade_ms=0, priority=1, key="o")
         elif op == "remove":
-            key = KEYS[S.choice("key%d" % i, len(KEYS))]
-            fade = S.real("fade_ms%d" % i, 1, 2000) if S.bool("fades%d" % i) else 0
+            key = KEYS[choice("key%d" % i, len(KEYS))]
+            fade = fade_ms("fade_ms%d" % i) if boolean("fades%d" % i) else 0
             light.remove_from_stack_by_key(key, fade_ms=fade)
             model.pop(key, None)
         elif op == "clear":
@@ -206,6 +217,10 @@ def scenarios(tier):
             for s in seqs:
                 parts.append(dict(light="l_rgb", backend=b, ops=s, rot=len(parts)))
         parts.append(dict(light="l_w", backend="soft", ops=["color", "color", "remove"], rot=1))
+        # a long fade (longer than the hardware's own 255 ms: sent in steps) interrupted by a return to the colour underneath
+        for b in ("batch", "direct", "soft"):
+            parts.append(dict(light="l_rgb", backend=b, ops=["color", "color", "remove"], rot=len(parts),
+                              pin={"key0": 0, "key1": 1, "key2": 1, "fades0": False, "fades1": True, "fades2": False, "fade_ms1": 1500.0}))
         for k, style in enumerate(("white_only", "min_rgb", "duck_rgb")):
             parts.append(dict(light="l_rgbw", backend="virtual", ops=["color", "color"], rot=k + 1, rgbw_style=style))
             parts.append(dict(light="l_rgbw", backend="virtual", ops=["color", "remove"], rot=k + 2, rgbw_style=style))
